@@ -370,14 +370,46 @@ def bind_params_for_call(*a, **k):  # placeholder kept for import compatibility
     raise NotImplementedError
 
 
-def solver_for(engine, pc):
+_SYM_CACHE = {}
+
+
+def _mentions(e, prefix):
+    """does formula e contain a function symbol whose name starts with prefix?"""
+    key = (e.get_id(), prefix)
+    if key in _SYM_CACHE:
+        return _SYM_CACHE[key]
+    seen, stack, hit = set(), [e], False
+    while stack and not hit:
+        x = stack.pop()
+        if x.get_id() in seen:
+            continue
+        seen.add(x.get_id())
+        if z3.is_quantifier(x):
+            stack.append(x.body())
+        elif z3.is_app(x):
+            if x.decl().kind() == z3.Z3_OP_UNINTERPRETED and x.decl().name().startswith(prefix):
+                hit = True
+            stack.extend(x.children())
+    _SYM_CACHE[key] = hit
+    return hit
+
+
+# theories whose facts are only ever needed by goals that mention them: leaving
+# them out of the other queries keeps those small (dropping hypotheses is sound)
+LOCAL_THEORIES = ("colsum!",)
+
+
+def solver_for(engine, pc, goal=None):
     s = z3.Solver()
     s.set("timeout", Z3_TIMEOUT_MS)
     s.set("rlimit", Z3_RLIMIT)
+    hide = [pre for pre in LOCAL_THEORIES if goal is not None and pre.rstrip("!") + "!SUM" in engine.specfns and not _mentions(goal, pre)]
     for a in engine.axioms:
-        s.add(a)
+        if not any(_mentions(a, pre) for pre in hide):
+            s.add(a)
     for p in pc:
-        s.add(p)
+        if not any(_mentions(p, pre) for pre in hide):
+            s.add(p)
     return s
 
 
@@ -386,7 +418,7 @@ def discharge(engine, ob, want_model=True, quick_ms=None):
     t0 = time.time()
     if getattr(ob, "trivial", False):
         return "discharged", "syntactic", 0.0, None
-    s = solver_for(engine, ob.pc)
+    s = solver_for(engine, ob.pc, ob.goal)
     hintable = "PS" in engine.specfns or "card" in engine.specfns or "pow10" in engine.specfns
     if quick_ms:
         budget(s, quick_ms, wall=2)
@@ -413,7 +445,7 @@ def discharge(engine, ob, want_model=True, quick_ms=None):
         # second attempt has the full budget (with or without hints).
         hints = ps_hints(engine, ob) if ("PS" in engine.specfns or "card" in engine.specfns) else []
         if True:
-            s2 = solver_for(engine, ob.pc)
+            s2 = solver_for(engine, ob.pc, ob.goal)
             for h in hints:
                 s2.add(h)
             s2.add(z3.Not(ob.goal))
@@ -731,8 +763,9 @@ def _run(eng, contract, fn, res):
                 while n < len(pref) and n < len(ob.pc) and pref[n].eq(ob.pc[n]):
                     n += 1
                 pref = pref[:n]
-            sm = solver_for(eng, pref)
-            sm.add(z3.Or(*[z3.And(*(ob.pc[len(pref):] + [z3.Not(ob.goal)])) for ob in live]))
+            merged = z3.Or(*[z3.And(*(ob.pc[len(pref):] + [z3.Not(ob.goal)])) for ob in live])
+            sm = solver_for(eng, pref, z3.And(*[ob.goal for ob in live]))
+            sm.add(merged)
             if _checked(sm) == z3.unsat:
                 merged_ok = True
                 dtm = (time.time() - t0m) / len(live)
@@ -753,6 +786,8 @@ def _run(eng, contract, fn, res):
             res.obligations.append(
                 {"label": ob.label, "kind": ob.kind, "status": status, "backend": backend, "time_s": dt, "detail": detail, "line": ob.lineno}
             )
+    # proofs of the library lemmas this run relied on
+    res.obligations.extend(getattr(eng, "library_lemmas", []))
     # canary: 'False' after a returning path must NOT be provable
     if contract.canary and canary_state is not None and (shard is None or shard[0] == 0):
         cob = Obligation("canary", "canary", list(canary_state.pc), z3.BoolVal(False))
